@@ -358,4 +358,103 @@ example : let s : Script := { demoFirst with evs := demoFirst.evs ++ [.disconnec
     (exec s).phase = .exited ∧ (exec s).dials = 1 ∧ (exec s).conns.length = 1 ∧
     (exec s).retryQ = [.rePublish 0 2] := by decide
 
+/-! ### a dialer that ignores its context (`Cfg.deafDialer`, e.g. `NoContextDialer`)
+
+  Every theorem above is stated and proved for all configurations, `deafDialer = true` included; no
+  statement had to change (`Redials.cancel` / `up_connect_returned`: once a connection is up Connect has
+  returned, and `.cancelCtx` is then a no-op whatever the dialer; `no_dial_after_disconnect`: a dial in
+  flight is acted upon, late or not, without a new DialContext call). New with such a dialer: the dial in
+  flight when the context of the first Connect is cancelled goes on, and the loop acts on its result. -/
+
+/-- cancellation while a deaf dialer is dialling: Connect returns the context's error, the loop stays
+    inside DialContext (same call: `dials` unchanged) -/
+theorem cancel_during_deaf_dial (w : World) (hd : w.cfg.deafDialer = true) (hp : w.phase = .dialGate)
+    (hc : w.ctxCancelled = false) (hr : w.connectReturned = none) :
+    step w .cancelCtx = { w with ctxCancelled := true, connectErr := true } :=
+  cancel_deaf_dial w hd hp hc hr
+
+/-- the transport then arrives: one more connection object (the client's current one, with the registered
+    handler), closed from the start, carrying CONNECT only if no request was waiting; the loop has exited:
+    no back-off, no DialContext call, Connect has returned nothing but the context's error. Requests that
+    were waiting are run by the task goroutine on that closed connection: they fail at once with a
+    retryable error and are kept (`never_stuck` covers them: nothing blocks). -/
+theorem late_transport (w : World) (i : Nat) (hp : w.phase = .dialGate) (hc : w.ctxCancelled = true)
+    (hr : w.connectReturned = none) :
+    let w' := step w (.dialOk i)
+    w'.phase = .exited ∧ w'.cli = some w.conns.length ∧ w'.conns.length = w.conns.length + 1 ∧
+    (getConn w' w.conns.length).alive = false ∧ (getConn w' w.conns.length).handler = w.handler ∧
+    w'.dials = w.dials ∧ w'.waits = w.waits ∧ w'.waitExp = w.waitExp ∧
+    w'.connectReturned = none ∧ w'.connectErr = w.connectErr ∧
+    (w.taskQ = [] → (getConn w' w.conns.length).pkts = [(.connect, .sent .ok)]) := by
+  obtain ⟨h1, h2, h3, h4, h5, _, _, h8, h9, h10, h11, h12, _, h14⟩ := late_dialOk w i hp hc hr
+  exact ⟨h1, h2, h3, h4, h5, h8, h9, h10, h11, h12, h14⟩
+
+/-- … or the dial fails: the loop exits, no back-off; nothing else changes -/
+theorem late_dial_failure (w : World) (hp : w.phase = .dialGate) (hc : w.ctxCancelled = true)
+    (hr : w.connectReturned = none) : step w .dialFail = { w with phase := .exited } :=
+  late_dialFail w hp hc hr
+
+/-- either way the loop is gone for good: whatever happens next, no further DialContext call -/
+theorem no_dial_after_late_result (w : World) (e : Ev) (es : List Ev)
+    (he : (∃ i, e = .dialOk i) ∨ e = .dialFail)
+    (hp : w.phase = .dialGate) (hc : w.ctxCancelled = true) (hr : w.connectReturned = none) :
+    (es.foldl step (step w e)).dials = w.dials ∧ (es.foldl step (step w e)).phase = .exited := by
+  have hx : (step w e).phase = .exited ∧ (step w e).dials = w.dials := by
+    rcases he with ⟨i, rfl⟩ | rfl
+    · obtain ⟨h1, _, _, _, _, _, _, h8, _⟩ := late_dialOk w i hp hc hr
+      exact ⟨h1, h8⟩
+    · rw [late_dialFail w hp hc hr]; exact ⟨rfl, rfl⟩
+  obtain ⟨a, b⟩ := exited_foldl_dials es _ hx.1
+  exact ⟨b.trans hx.2, a⟩
+
+/-- with a dialer that honours its context this situation does not arise in any run: the model is then
+    the one without `deafDialer` -/
+theorem late_result_needs_deaf_dialer (s : Script) (h : s.cfg.deafDialer = false) :
+    ¬ ((exec s).phase = .dialGate ∧ (exec s).ctxCancelled = true ∧ (exec s).connectReturned = none) :=
+  no_late_dial s h
+
+/-- cancellation during the first dial, the transport arrives: a closed connection with CONNECT only,
+    the loop exited, Connect returned the context's error; later timer / dial events do nothing -/
+example : let s : Script :=
+      { cfg := { deafDialer := true, respTimeout := true }, evs := [.start, .cancelCtx, .dialOk 0, .waitElapsed, .dialOk 5] }
+    (exec s).phase = .exited ∧ (exec s).connectErr = true ∧ (exec s).connectReturned = none ∧
+    (exec s).dials = 1 ∧ (exec s).waits = [] ∧ (exec s).conns.length = 1 ∧ (exec s).cli = some 0 ∧
+    (getConn (exec s) 0).alive = false ∧ (getConn (exec s) 0).pkts = [(.connect, .sent .ok)] ∧
+    (exec s).stuck = false := by decide
+
+/-- the state in between: Connect has returned the error, the loop is still inside DialContext -/
+example : let s : Script := { cfg := { deafDialer := true }, evs := [.start, .cancelCtx] }
+    (exec s).phase = .dialGate ∧ (exec s).connectErr = true ∧ (exec s).ctxCancelled = true ∧
+    (exec s).dials = 1 := by decide
+
+/-- the dial fails instead: exited, no back-off, no redial -/
+example : let s : Script :=
+      { cfg := { deafDialer := true }, evs := [.start, .cancelCtx, .dialFail, .waitElapsed, .dialOk 5] }
+    (exec s).phase = .exited ∧ (exec s).connectErr = true ∧ (exec s).dials = 1 ∧ (exec s).waits = [] ∧
+    (exec s).conns.length = 0 := by decide
+
+/-- Connect called with a context that is already done: the deaf dialer dials all the same -/
+example : let s : Script := { cfg := { deafDialer := true }, evs := [.cancelCtx, .start, .dialOk 0] }
+    (exec s).phase = .exited ∧ (exec s).connectErr = true ∧ (exec s).dials = 1 ∧ (exec s).conns.length = 1 ∧
+    (getConn (exec s) 0).alive = false := by decide
+
+/-- a request made before Connect is run on the late, closed connection: it fails at once (retryable, not
+    a timeout), is kept for retransmission, and the task goroutine is not blocked -/
+example : let s : Script :=
+      { cfg := { deafDialer := true, respTimeout := true }, faults := [.silent],
+        evs := [.app (.pub 0 1), .start, .cancelCtx, .dialOk 0] }
+    (exec s).phase = .exited ∧ (exec s).retryQ = [.rePublish 0 1] ∧ (exec s).onErrors = [.retryable] ∧
+    (exec s).stuck = false ∧ (exec s).faults = [.silent] ∧ (exec s).dials = 1 ∧
+    (getConn (exec s) 0).pkts = [(.connect, .sent .ok), (.publish 0 1 1 false, .dead)] := by decide
+
+/-- Disconnect between the cancellation and the late transport: DISCONNECT is attempted on the closed
+    connection, no further dial -/
+example : let s : Script := { cfg := { deafDialer := true }, evs := [.start, .cancelCtx, .disconnect, .dialOk 0, .waitElapsed] }
+    (exec s).phase = .exited ∧ (exec s).dials = 1 ∧ (exec s).stopped = true ∧
+    (getConn (exec s) 0).pkts = [(.connect, .sent .ok), (.disconnect, .dead)] := by decide
+
+/-- the same events with a dialer that honours its context: the loop leaves at the cancellation -/
+example : let s : Script := { evs := [.start, .cancelCtx, .dialOk 0] }
+    (exec s).phase = .exited ∧ (exec s).connectErr = true ∧ (exec s).dials = 1 ∧ (exec s).conns.length = 0 := by decide
+
 end Mqtt.C18
